@@ -58,7 +58,7 @@ def metadata(origin: int, ver: int):
 
 # ---------------------------------------------------------------------------
 class Node:
-    __slots__ = ("idx", "kind", "cls", "name", "parent", "flags", "children", "dkind", "vsrc", "gsrc", "msrc", "pgs", "ws")
+    __slots__ = ("idx", "kind", "cls", "name", "parent", "flags", "children", "dkind", "vsrc", "gsrc", "msrc", "pgs", "ws", "tsrc")
 
     def __init__(self, idx, kind, cls, name, parent, ws=1):
         self.idx = idx
@@ -77,6 +77,7 @@ class Node:
         self.msrc = (idx, 0)  # metadata
         self.pgs = {}  # name -> [data idx]
         self.ws = ws
+        self.tsrc = None  # data only: index of the data whose type is shared (None = own)
 
 
 class Model:
@@ -196,6 +197,7 @@ class TreeExec:
         self.unexpected: list = []  # library refusals of operations the model considers valid
         self.all_ops: list = []
         self.gc_armed = False  # set for the LAST operation of a history only (cost)
+        self.deferred: list = []
 
     # -- resolution -----------------------------------------------------------
     def wsof(self, handle):
@@ -283,7 +285,13 @@ class TreeExec:
         kw, expect = self._uid_request(opt, "group")
         nd = self.model.new("group", "ContainerGroup", f"g{self.model.n}", parent)
         par = self.ent(parent)
-        g = self._create(lambda: ContainerGroup.create(par.workspace, name=nd.name, parent=par, **kw), expect)
+        if opt and opt.get("defer"):
+            # public option of Workspace.create_entity: the entity reaches the file later
+            # (when a child is saved, or at close)
+            g = self._lib(lambda: par.workspace.create_entity(ContainerGroup, save_on_creation=False, entity={"name": nd.name, "parent": par}))
+            self.deferred.append(g)  # a live reference, as the caller of create_entity has one
+        else:
+            g = self._create(lambda: ContainerGroup.create(par.workspace, name=nd.name, parent=par, **kw), expect)
         self.uid[nd.idx] = g.uid
         self.keep(g)
 
@@ -332,6 +340,35 @@ class TreeExec:
         ond.pgs.setdefault(pg, [])
         if data not in ond.pgs[pg]:
             ond.pgs[pg].append(data)
+
+    def op_pg_add_foreign(self, obj, data, pg):
+        """Ask for a data set of ANOTHER object (by identifier) to be put in a property group:
+        must be refused or ignored - a group lists only children of its own object."""
+        o = self.ent(obj)
+        d = self.ent(data)
+        try:
+            o.add_data_to_group(d.uid, pg)
+        except Exception as err:  # pylint: disable=broad-except
+            raise Refused("expected:foreign-data:" + type(err).__name__) from err
+        return "ok:ignored-or-accepted"
+
+    def op_retype(self, d, d2):
+        """Share another data's type (as the DC/IP surveys do)."""
+        x = self.ent(d)
+        y = self.ent(d2)
+        self._lib(lambda: setattr(x, "entity_type", y.entity_type))
+        self.model.nodes[d].tsrc = self.model.nodes[d2].tsrc if self.model.nodes[d2].tsrc is not None else d2
+
+    def op_rm_par_all(self, parent):
+        """One call removing every child of a parent (mixed kinds in one list)."""
+        par = self.ent(parent)
+        kids = list(self.model.kids(parent))
+        ents = [self.ent(k) for k in kids]
+        self._lib(lambda: par.remove_children(ents))
+        del ents
+        for k in kids:
+            self.events.append(("removed", "parent", [k] + self.model.descendants(k), len(self.results)))
+            self.model.remove(k, "parent")
 
     def _pg(self, o, pg):
         found = o.get_property_group(pg)[0]
@@ -691,6 +728,8 @@ def enabled(model: Model, alpha: dict) -> list:
         ops += [["meta", e.idx] for e in groups + objects if e.msrc[0] == e.idx and e.msrc[1] < 2]
     if "mk_group" in kinds and len(groups) < caps.get("groups", 3):
         ops += [["mk_group", p] for p in containers]
+        if alpha.get("defer"):
+            ops += [["mk_group", p, {"defer": True}] for p in containers]
     if "mk_obj" in kinds and len(objects) < caps.get("objects", 3):
         for cls in alpha.get("classes", ("Points",)):
             ops += [["mk_obj", cls, p] for p in containers]
@@ -709,6 +748,21 @@ def enabled(model: Model, alpha: dict) -> list:
                 for pg in alpha.get("pgs", ("P", "Q")):
                     if d not in o.pgs.get(pg, []):
                         ops.append(["pg_add", o.idx, d, pg])
+    if alpha.get("pg_foreign"):
+        for o in objects:
+            for d in data:
+                if d.parent != o.idx and DATA_KINDS[d.dkind] == "VERTEX":
+                    ops.append(["pg_add_foreign", o.idx, d.idx, "P"])
+    if alpha.get("retype"):
+        for d in data:
+            for d2 in data:
+                if d.idx != d2.idx and d.dkind == d2.dkind and d.dkind in ("fv", "fc") and d.tsrc is None and d2.tsrc is None:
+                    ops.append(["retype", d.idx, d2.idx])
+    if "rm_par_all" in kinds:
+        for h in containers:
+            kids = model.kids(h)
+            if len(kids) >= 2:
+                ops.append(["rm_par_all", h])
     if "pg_rm" in kinds:
         for o in objects:
             for pg, mem in o.pgs.items():
